@@ -846,11 +846,21 @@ func (g *Graph) PathAvoiding(from []*Node, to NodePred, avoid NodePred) []*Node 
 	var q []*Node
 	// seeds are not marked seen: a seed that is also a target must be found when reached again
 	q = append(q, from...)
+	isSeed := map[*Node]bool{}
+	for _, f := range from {
+		isSeed[f] = true
+	}
 	for len(q) > 0 {
 		n := q[0]
 		q = q[1:]
 		for _, s := range n.Succ {
 			if seen[s] {
+				continue
+			}
+			if isSeed[s] && !(to != nil && to(s)) {
+				// already queued as a seed: do not give it a predecessor (that would make the
+				// witness chain cyclic)
+				seen[s] = true
 				continue
 			}
 			if to != nil && to(s) {
